@@ -11,6 +11,11 @@ theorem Step.andThen {a b c : St} {cs1 cs2 : List Com} (h1 : Step a b cs1) (h2 :
 
 local infixl:65 " ⟫ " => Step.andThen
 
+/-- once the lossy counter has gone up, any claim about the comments holds vacuously -/
+theorem Step.ofLt {a b c : St} {cs2 : List Com} (cs : List Com) (h : a.lossD < b.lossD)
+    (h2 : Step b c cs2) : Step a c cs :=
+  ⟨Nat.le_trans (Nat.le_of_lt h) h2.1, fun e => absurd e (by have := h2.1; omega)⟩
+
 theorem Step.iteId {σ a : St} (c : Prop) [Decidable c] (h : Step σ a []) :
     Step σ (if c then a else σ) [] := by
   split
@@ -52,15 +57,15 @@ theorem emitInline_step (c : Com) (σ : St) : Step σ (emitInline c σ) [c] := b
     exact ⟨by simp [hp], fun _ => by simp [St.acc, this]⟩
   · exact ⟨by simp [hp], fun h => absurd h (by simp [hp])⟩
 
-theorem inlineCand_some {noStmts : Bool} {last : List Com} {right : Pos} {σ : St} {c : Com}
-    (h : inlineCand noStmts last right σ = some c) : noStmts = true ∧ last = [c] := by
+theorem inlineCand_some {o : Opts} {noStmts : Bool} {last : List Com} {right : Pos} {σ : St} {c : Com}
+    (h : inlineCand o noStmts last right σ = some c) : noStmts = true ∧ last = [c] := by
   unfold inlineCand at h
   split at h
   · split at h
     · rename_i h1
       simp only [Bool.and_eq_true] at h1
       simp only [Option.some.injEq] at h
-      exact ⟨h1.1, by rw [h]⟩
+      exact ⟨h1.1.1, by rw [h]⟩
     · cases h
   · cases h
 
@@ -68,7 +73,7 @@ variable (o : Opts) (hm : o.minify = false)
 include hm
 
 mutual
-  theorem step_item : ∀ (i : Item) (σ : St), wfItem true i = true → Step σ (prItem o i σ) (acItem i)
+  theorem step_item : ∀ (i : Item) (σ : St), wfItem i = true → Step σ (prItem o i σ) (acItem i)
     | .li x, σ, _ => by simp only [prItem, acItem]; exact runL_step o x σ
     | .bslw p, σ, _ => by simp only [prItem, acItem]; exact Step.iteId _ (bslashNewl_step σ)
     | .tnl p, σ, _ => by simp only [prItem, acItem]; exact Step.iteId _ (newlines_step o p σ)
@@ -113,14 +118,14 @@ mutual
         · exact (comments_step o hm last τ ⟫ flushComments_step o _).congr (by simp)
       exact (step_elems elems σ hw ⟫ h2 _ ⟫ rightParen_step o rparen _).congr (by simp)
 
-  theorem step_items : ∀ (is : List Item) (σ : St), wfItems true is = true → Step σ (prItems o is σ) (acItems is)
+  theorem step_items : ∀ (is : List Item) (σ : St), wfItems is = true → Step σ (prItems o is σ) (acItems is)
     | [], σ, _ => by simp only [prItems, acItems]; exact Step.refl σ
     | i :: is, σ, hw => by
       simp only [wfItems, Bool.and_eq_true] at hw
       simp only [prItems, acItems]
       exact step_item i σ hw.1 ⟫ step_items is _ hw.2
 
-  theorem step_elems : ∀ (es : List Elem) (σ : St), wfElems true es = true → Step σ (prElems o es σ) (acElems es)
+  theorem step_elems : ∀ (es : List Elem) (σ : St), wfElems es = true → Step σ (prElems o es σ) (acElems es)
     | [], σ, _ => by simp only [prElems, acElems]; exact Step.refl σ
     | .mk pos coms items :: es, σ, hw => by
       simp only [wfElems, Bool.and_eq_true] at hw
@@ -128,7 +133,7 @@ mutual
       exact (comments_step o hm _ σ ⟫ Step.iteId _ (newlines_step o pos _) ⟫ step_items items _ hw.1.2
         ⟫ comments_step o hm _ _ ⟫ step_elems es _ hw.2).congr (by simp)
 
-  theorem step_stmt : ∀ (s : Stmt) (σ : St), wfStmt true s = true → Step σ (prStmt o s σ) (acStmt s)
+  theorem step_stmt : ∀ (s : Stmt) (σ : St), wfStmt s = true → Step σ (prStmt o s σ) (acStmt s)
     | .mk pos cmdPos cmdEnd semi coms cmd redirs, σ, hw => by
       simp only [wfStmt, Bool.and_eq_true] at hw
       simp only [prStmt, acStmt]
@@ -140,7 +145,7 @@ mutual
         · exact (advLine_step _ σ ⟫ step_cmd cmd _ hw.1).congr (by simp)
       exact (h1 ⟫ step_redirs redirs _ hw.2 ⟫ Step.iteId _ (bslashNewl_step _)).congr (by simp)
 
-  theorem step_redirs : ∀ (rs : List Redir) (σ : St), wfRedirs true rs = true → Step σ (prRedirs o rs σ) (acRedirs rs)
+  theorem step_redirs : ∀ (rs : List Redir) (σ : St), wfRedirs rs = true → Step σ (prRedirs o rs σ) (acRedirs rs)
     | [], σ, _ => by simp only [prRedirs, acRedirs]; exact Step.refl σ
     | .mk opPos hd word :: rs, σ, hw => by
       simp only [wfRedirs, Bool.and_eq_true] at hw
@@ -154,7 +159,7 @@ mutual
         | some h => exact Keeps.step ⟨rfl, rfl, rfl⟩
       exact (Step.iteId _ (bslashNewl_step σ) ⟫ step_items word _ hw.1 ⟫ h3 _ ⟫ step_redirs rs _ hw.2).congr (by simp)
 
-  theorem step_loop : ∀ (req : Bool) (ss : List Stmt) (σ : St), wfStmts true ss = true →
+  theorem step_loop : ∀ (req : Bool) (ss : List Stmt) (σ : St), wfStmts ss = true →
       Step σ (prStmtLoop o req ss σ) (acStmts ss)
     | _, [], σ, _ => by simp only [prStmtLoop, acStmts]; exact Step.refl σ
     | req, s :: ss, σ, hw => by
@@ -165,7 +170,7 @@ mutual
         ⟫ comments_step o hm _ _ ⟫ step_stmt s _ hw.1.2 ⟫ comments_step o hm _ _ ⟫ hk _
         ⟫ step_loop true ss _ hw.2).congr (by simp)
 
-  theorem step_cmd : ∀ (c : Cmd) (σ : St), wfCmd true c = true → Step σ (prCmd o c σ) (acCmd c)
+  theorem step_cmd : ∀ (c : Cmd) (σ : St), wfCmd c = true → Step σ (prCmd o c σ) (acCmd c)
     | .none, σ, _ => by simp only [prCmd, acCmd]; exact Step.refl σ
     | .flat items, σ, hw => by
       simp only [wfCmd] at hw
@@ -208,12 +213,15 @@ mutual
       simp only [prCmd, acCmd, hx, List.nil_append]
       have sx := step_stmt x σ hw.1.2
       split
-      · by_cases hy : y.coms.isEmpty = true
-        · have hy' : y.coms = [] := by simpa using hy
-          simp only [hy, ↓reduceIte, hy']
-          exact (sx ⟫ advLine_step _ _ ⟫ step_stmt y _ hw.2).congr (by simp)
+      · by_cases hy : (y.coms.isEmpty || (acStmt y).isEmpty) = true
+        · simp only [hy, ↓reduceIte]
+          refine (sx ⟫ advLine_step _ _ ⟫ step_stmt y _ hw.2 ⟫ comments_step o hm y.coms _).congr ?_
+          simp only [Bool.or_eq_true, List.isEmpty_iff] at hy
+          rcases hy with h | h <;> simp [h]
         · simp only [hy, Bool.false_eq_true, ↓reduceIte]
-          exact (sx ⟫ Step.bump _ y.coms ⟫ advLine_step _ _ ⟫ step_stmt y _ hw.2).congr (by simp)
+          have rest := advLine_step y.pos.line ({ prStmt o x σ with lossD := (prStmt o x σ).lossD + 1 } : St)
+            ⟫ step_stmt y _ hw.2 ⟫ comments_step o hm y.coms _
+          exact (sx ⟫ Step.ofLt (y.coms ++ acStmt y) (Nat.lt_succ_self _) rest).congr (by simp)
       · have hmid : ∀ τ : St, Step τ
             (if o.binNextLine = true then
               (if y.coms.isEmpty = true then (if τ.hdocs.isEmpty = true then bslashNewl τ else τ)
@@ -247,12 +255,11 @@ mutual
       simp only [prCmd, acCmd]
       exact (step_items pre σ hw.1).congr (by simp)
     | .wrap pre (some s), σ, hw => by
-      simp only [wfCmd, Bool.and_eq_true, Bool.not_true, Bool.false_or] at hw
-      have hs : s.coms = [] := by simpa using hw.2.1
-      simp only [prCmd, acCmd, hs, List.nil_append]
-      exact step_items pre σ hw.1 ⟫ step_stmt s _ hw.2.2
+      simp only [wfCmd, Bool.and_eq_true] at hw
+      simp only [prCmd, acCmd]
+      exact (step_items pre σ hw.1 ⟫ step_stmt s _ hw.2 ⟫ comments_step o hm s.coms _).congr (by simp)
 
-  theorem step_if : ∀ (fi : Pos) (ic : IfC) (σ : St), wfIf true ic = true → Step σ (prIf o fi ic σ) (acIf ic)
+  theorem step_if : ∀ (fi : Pos) (ic : IfC) (σ : St), wfIf ic = true → Step σ (prIf o fi ic σ) (acIf ic)
     | fi, .mk position hasThen thenPos condEnd cond condLast thenEnd thn thenLast last none, σ, hw => by
       simp only [wfIf, Bool.and_eq_true] at hw
       simp only [prIf, acIf]
@@ -284,7 +291,7 @@ mutual
         conv => lhs; rw [← hsplit]
         simp only [List.append_assoc]
 
-  theorem step_else : ∀ (fi : Pos) (e : IfC) (σ : St), wfIf true e = true → e.elseShape = true →
+  theorem step_else : ∀ (fi : Pos) (e : IfC) (σ : St), wfIf e = true → e.elseShape = true →
       Step σ (prElse o fi e σ) (acIf e)
     | fi, .mk position hasThen thenPos condEnd cond condLast thenEnd thn thenLast last none, σ, hw, hs => by
       simp only [wfIf, Bool.and_eq_true] at hw
@@ -297,14 +304,14 @@ mutual
     | fi, .mk position hasThen thenPos condEnd cond condLast thenEnd thn thenLast last (some e), σ, hw, hs => by
       simp [IfC.elseShape] at hs
 
-  theorem step_caseItems : ∀ (cis : List CaseItem) (σ : St), wfCaseItems true cis = true →
+  theorem step_caseItems : ∀ (cis : List CaseItem) (σ : St), wfCaseItems cis = true →
       Step σ (prCaseItems o cis σ) (acCaseItems cis)
     | [], σ, _ => by simp only [prCaseItems, acCaseItems]; exact Step.refl σ
-    | .mk pos opPos endLine coms pats stmts last :: rest, σ, hw => by
+    | .mk pos opPos opBreak endLine coms pats stmts last :: rest, σ, hw => by
       simp only [wfCaseItems, Bool.and_eq_true] at hw
       simp only [prCaseItems, acCaseItems, splitCase_of_monotone pos coms hw.1.1.1]
       have hop : ∀ τ : St, Step τ
-          (if (!o.minify || !rest.isEmpty) = true then
+          (if (!o.minify || !rest.isEmpty || !opBreak) = true then
             advLine opPos.line (if wantsNewline o τ opPos false = true then { newlines o opPos τ with wantNewline := true } else τ)
            else τ) [] := by
         intro τ
